@@ -72,6 +72,8 @@ def materialise_faults(sched, res):
             kind, cand = "stepend", list(range(1, tr.counts["stepend"] + 1))
         elif where == "step":
             kind, cand = "step", list(range(1, tr.counts["step"] + 1))
+        elif where == "alloc":
+            kind, cand = "alloc", list(range(1, tr.counts["alloc"] + 1))
         elif where == "flush":
             kind, cand = "flushw", list(range(1, tr.counts["flushw"] + 1))
         if not cand:
@@ -97,7 +99,8 @@ def signature(sched, res):
                              for p in op.get("tsave", [])))
         mon = tuple(sorted((m.get("type", k), m.get("frequency", 10)) for k, m in (op.get("mon") or {}).items()))
         tr = r.trace
-        sig.append((op["op"], op["s"], "res" if "res" in op["f"] else "init", op.get("stop_kind"), kinds, mon,
+        sig.append((op["op"], op["s"], "res" if "res" in op["f"] else "init", op.get("stop_kind"),
+                    op.get("stop_share") is not None, kinds, mon,
                     bool(op.get("dir")), op.get("flush"), r.outcome,
                     min(len(tr.full_steps()), 3), min(len(tr.side_steps()), 3)))
     return tuple(sig)
@@ -200,6 +203,12 @@ def _account(out, stats, sched, res, ex, tag):
                 stats["probe:dtlocal with non-uniform ticks"] += 1
             if r.cand_note:
                 stats["cand:" + r.cand_note] += 1
+            if r.by_copy:
+                stats["probe:initial field passed as field.copy()"] += 1
+            if r.spec.get("stop_share") is not None:
+                stats["probe:stop dictionary object re-used by a later call"] += 1
+            if r.args_mutated:
+                stats["probe:call modified its stop dictionary or save-time list"] += 1
             if r.flush_mode and r.outcome == "returned":
                 stats["probe:flush written"] += 1
             if any(s.dt == 0 for s in side if not s.dt_is_array):
